@@ -506,9 +506,9 @@ def oracle_roundtrip(run: Run, m, df, spec, tmp: Path, idx: int):
         if k not in pb:
             continue
         a, b = pa[k], pb[k]
-        if tensors_equal_bits(a, b):
+        if same_values(a, b):      # bit-equal, NaN positions included (a diverged fit leaves NaN parameters; json keeps them)
             continue
-        if a.dtype == torch.float64 and b.dtype == torch.float32 and tuple(a.shape) == tuple(b.shape) and torch.equal(a.to(torch.float32), b):
+        if a.dtype == torch.float64 and b.dtype == torch.float32 and tuple(a.shape) == tuple(b.shape) and same_values(a.to(torch.float32), b):
             run.fail("save-load:float64-parameters", f"parameter {k} is float64 after the fit and float32 after reload "
                      "(equal to single precision; the re-saved file differs)", small,
                      expected=a.reshape(-1).tolist()[:3], observed=b.reshape(-1).tolist()[:3])
@@ -536,9 +536,9 @@ def oracle_roundtrip(run: Run, m, df, spec, tmp: Path, idx: int):
                         continue
                     a = np.asarray(d1[k].get(q), dtype=float)
                     b = np.asarray(d2[k].get(q), dtype=float)
-                    if a.size == b.size and np.array_equal(a.astype(np.float32).reshape(-1), b.astype(np.float32).reshape(-1)):
+                    if a.size == b.size and np.array_equal(a.astype(np.float32).reshape(-1), b.astype(np.float32).reshape(-1), equal_nan=True):
                         continue  # float64 -> float32 or () -> (1,), reported above (mixing_matrix: derived from them)
-                    if q == "mixing_matrix" and a.shape == b.shape and np.allclose(a, b, atol=1e-6, rtol=0):
+                    if q == "mixing_matrix" and a.shape == b.shape and np.allclose(a, b, atol=1e-6, rtol=0, equal_nan=True):
                         continue
                     explained = False
                     run.fail(f"save-load:file-differs:parameters.{q}", "re-saved file differs", small,
@@ -562,7 +562,7 @@ def oracle_roundtrip(run: Run, m, df, spec, tmp: Path, idx: int):
     if sd >= 1 and "mixing_matrix" in d1["parameters"]:
         a = np.asarray(d1["parameters"]["mixing_matrix"], dtype=float)
         b = m2.state["mixing_matrix"].detach().double().numpy()
-        if a.shape != b.shape or not np.allclose(a, b, atol=1e-6, rtol=0):
+        if a.shape != b.shape or not np.allclose(a, b, atol=1e-6, rtol=0, equal_nan=True):
             run.fail("self-consistency:mixing-matrix", "mixing_matrix written in the file differs from the one recomputed from the "
                      "saved parameters", small, expected=a.tolist(), observed=b.tolist())
     # --- trajectories
@@ -589,7 +589,7 @@ def oracle_self_consistent(run: Run, m, spec, when: str = "after the fit"):
         loc_name = var.prior.parameters_names[0]
         mode = var.prior.mode.call(st)
         loc = st[loc_name]
-        if not (torch.equal(st[pp], mode) and torch.equal(st[pp], loc.expand(st[pp].shape))):
+        if not (same_values(st[pp], mode) and same_values(st[pp], loc.expand(st[pp].shape).to(st[pp].dtype))):
             run.fail("self-consistency:population-not-at-prior-mode", f"{when} {pp} differs from the mode of its prior "
                      f"under the model's current parameters ({loc_name})", small,
                      expected=loc.reshape(-1).tolist()[:4], observed=st[pp].reshape(-1).tolist()[:4])
@@ -610,7 +610,7 @@ def oracle_self_consistent(run: Run, m, spec, when: str = "after the fit"):
         a = st[n]
         checked += 1
         av, bv = getattr(a, "value", a), getattr(b, "value", b)
-        if not (av.shape == bv.shape and torch.equal(av, bv)):
+        if not (av.shape == bv.shape and same_values(av, bv)):
             run.fail("self-consistency:stale-derived-value", f"{when}: {n} read from the model differs from its from-scratch value", small)
     run.count("self-consistency", "derived-values-compared", checked)
 
@@ -764,6 +764,22 @@ def oracle_history(run: Run, hist: dict, tmp: Path, idx: int, lp_cases: list | N
         run.fail(f"self-consistency:history:{what_sig}", what, hist, **kw)
 
     m, df, last = None, None, None
+    # everything the history needs that is NOT the property's business (synthetic cohort, initialisation of the models whose
+    # parameters are loaded): a failure here (degenerate cohort: no event, zero spread) skips the history
+    data = None
+    try:
+        with warnings.catch_warnings(), quiet():
+            warnings.simplefilter("ignore")
+            for st in steps:
+                if st[0] in ("load", "load_parameters"):
+                    written(st[1])
+            if any(st[0] == "fit" for st in steps[1:]):
+                df = synth.make_df(n_ind=8, n_feat=spec["n_feat"], seed=spec.get("data_seed", 1), joint=spec["kind"] == "joint",
+                                   kind="linear" if spec["kind"] == "linear" else "logistic", binary=(spec.get("noise") == "bernoulli"))
+                data = synth.make_data(df, spec["kind"])
+    except Exception as e:  # noqa
+        run.count("history-skipped", f"not-buildable:{type(e).__name__}")
+        return None
     try:
         for st in steps:
             op = st[0]
@@ -779,17 +795,21 @@ def oracle_history(run: Run, hist: dict, tmp: Path, idx: int, lp_cases: list | N
                     m.to_dict()
                     trajectories(m, df)
                 elif op == "fit":
-                    if m is None:
-                        m, df = build_model({**spec, "fit_iter": st[1], "fit_seed": st[2]})
-                        oracle_final_parameters(run, m, getattr(m, "_c12_sampling_state", None), hist)
-                    else:
-                        if df is None:
-                            df = synth.make_df(n_ind=8, n_feat=spec["n_feat"], seed=spec.get("data_seed", 1), joint=spec["kind"] == "joint",
-                                               kind="linear" if spec["kind"] == "linear" else "logistic",
-                                               binary=(spec.get("noise") == "bernoulli"))
-                        with _RunRecorder() as rr:
-                            m.fit(synth.make_data(df, spec["kind"]), "mcmc_saem", n_iter=st[1], seed=st[2], progress_bar=False)
-                        oracle_final_parameters(run, m, rr.states[-1] if rr.states else None, hist)
+                    # the property does not say that a fit succeeds: a fit that raises ends the history without a verdict
+                    try:
+                        if m is None:
+                            m, df = build_model({**spec, "fit_iter": st[1], "fit_seed": st[2]})
+                            sampling = getattr(m, "_c12_sampling_state", None)
+                        else:
+                            if data is None:
+                                data = synth.make_data(df, spec["kind"])
+                            with _RunRecorder() as rr:
+                                m.fit(data, "mcmc_saem", n_iter=st[1], seed=st[2], progress_bar=False)
+                            sampling = rr.states[-1] if rr.states else None
+                    except Exception as e:  # noqa
+                        run.count("history-skipped", f"fit-raises:{type(e).__name__}")
+                        return None
+                    oracle_final_parameters(run, m, sampling, hist)
                     last = ("fit",)
                 elif op == "load_parameters":
                     _, d = written(st[1])
@@ -818,7 +838,7 @@ def oracle_history(run: Run, hist: dict, tmp: Path, idx: int, lp_cases: list | N
         if isinstance(e, ValueError) and "Can not reset the variable" in str(e):
             run.count("skipped", "unmodelled:duplicate-observation-variable")
             return False
-        bad(f"{steps[len(steps) - 1][0]}-raises:{type(e).__name__}", f"history step raised {type(e).__name__}: {str(e)[:200]}")
+        bad(f"{op}-raises:{type(e).__name__}", f"history step `{op}` raised {type(e).__name__}: {str(e)[:200]}")
         return False
     n_before = len(run._fails) + len(run._known_hit)
     # (a) population variables == prior modes bit-for-bit; derived values == from-scratch values in a fresh State
@@ -1199,7 +1219,7 @@ def _check(run: Run, thorough: bool, version: str, tmp: Path):
         run.count("history", shape)
         run.count("history-config", f"{h['spec']['kind']}/s{h['spec']['source_dimension']}/{h['spec']['noise']}")
         run.case(("history", json.dumps(h, sort_keys=True)), nontrivial=True)
-        if oracle_history(run, h, tmp, j, lp_cases, lp_meta):
+        if oracle_history(run, h, tmp, j, lp_cases, lp_meta):   # None: skipped (cohort not usable), False: something failed
             n_ok += 1
     if hists:
         run.sample(dict(kind="history", **hists[0]))
